@@ -37,23 +37,7 @@ func TestReplay(t *testing.T) { ev.RunReplay(t, judges) }
 
 // localExcluded lists the exclusion tags of the findings filed under
 // /verif/known/C11-*.json until they are listed in known_findings.json.
-var localExcluded = map[string]bool{
-	"c11.delimiter.drop-paren":              true, // C11-1
-	"c11.delimiter.drop-bracket":            true, // C11-1 (same root cause: Parser.expect ignores a missing closer)
-	"c11.undeclared.in.const_assert":        true, // C11-2
-	"c11.arraysize.size-1":                  true, // C11-3
-	"c11.divzero.in.entry":                  true, // C11-4
-	"c11.divzero.in.helper":                 true, // C11-4
-	"c11.undeclared.var.in.template":        true, // C11-5
-	"c11.undeclared.attr":                   true, // C11-6
-	"c11.undeclared.in.logic-rhs":           true, // C11-7
-	"c11.swizzle.in.logic-rhs":              true, // C11-7
-	"c11.callargs.in.logic-rhs":             true, // C11-7
-	"c11.undeclared.type.in.decl:var":       true, // C11-8
-	"c11.undeclared.fn.in.decl:var":         true, // C11-8
-	"c11.undeclared.type.in.let-annotation": true, // C11-9
-	"c11.undeclared.type.in.ctor-template":  true, // C11-10
-}
+var localExcluded = map[string]bool{}
 
 // tagsOf returns the exclusion tags a rule-breaking edit falls under, most
 // specific first.
